@@ -182,23 +182,21 @@ class Engine:
         # term shapes (plain vs clamped slice bounds, folded lengths) depend on these answers, so they must not flip under
         # load: first a cheap attempt on the arithmetic hypotheses only (sound: fewer hypotheses), then the full set with a
         # budget well above what an `unsat` needs here
-        # Both attempts are bounded by z3 RESOURCE limits (deterministic: the same query gets the same answer on a slow or loaded
-        # machine), sized to what the former wall-clock budgets (1 s / 3 s) allowed on the development machine; the wall-clock time-outs
-        # that remain are only a 10x safety net.  (`vp check` showed why: on another machine a wall-clock `unknown` here changed the
-        # shape of later terms and left one obligation of C01 undecided.)
-        rl = int(os.environ.get('VERIF_IMPLIED_RLIMIT', '60000000'))
+        # wall-clock budgets; contract option implied_ms raises them for a function whose proof is known to depend on a slow answer here
+        # (a resource-limit version, deterministic across machines, was tried after `vp check` left one C01 obligation undecided on
+        # another machine: at the limit that reproduces these answers it tripled the run time of C01/C02 and exhausted the unit budget of a
+        # padding unit, so it was reverted -- DESIGN.md 8.8)
+        ms = int(self.options.get('implied_ms') or os.environ.get('VERIF_IMPLIED_MS', '6000'))
         arith = [c for c in st.pc if not _mentions_seq_ops(c)]
         if len(arith) != len(st.pc):
             s = z3.Solver()
-            s.set('rlimit', rl // 3)
-            s.set('timeout', 10000)
+            s.set('timeout', max(1000, ms // 3))
             s.add(*arith)
             s.add(z3.Not(t))
             if s.check() == z3.unsat:
                 return True
         s = z3.Solver()
-        s.set('rlimit', rl)
-        s.set('timeout', int(os.environ.get('VERIF_IMPLIED_MS', '30000')))
+        s.set('timeout', ms)
         s.add(*st.pc)
         s.add(z3.Not(t))
         return s.check() == z3.unsat
